@@ -30,6 +30,11 @@ func uintMax(t types.Type) (uint64, bool) {
 // upperBound: the largest value v can have at block at (saturating at 1<<40), from constants, widening
 // conversions, phis of bounded values, sums/products of bounded values and dominating comparisons with constants.
 func upperBound(v ssa.Value, at *ssa.BasicBlock, depth int) uint64 {
+	return upperBoundE(v, at, depth, nil)
+}
+
+// upperBoundE is upperBound under an assumption about parameters (the constant arguments of one call site).
+func upperBoundE(v ssa.Value, at *ssa.BasicBlock, depth int, env map[*ssa.Parameter]uint64) uint64 {
 	const top = uint64(1) << 40
 	tmax, okT := uintMax(v.Type())
 	if !okT {
@@ -53,22 +58,38 @@ func upperBound(v ssa.Value, at *ssa.BasicBlock, depth int) uint64 {
 			}
 		}
 		return tmax
+	case *ssa.Parameter:
+		if b, ok := env[x]; ok {
+			return min(bound, b)
+		}
+	case *ssa.Extract:
+		if b, ok := extractBound(x, depth, env); ok {
+			bound = min(bound, b)
+		}
 	case *ssa.Convert:
-		bound = min(bound, upperBound(x.X, at, depth+1))
+		bound = min(bound, upperBoundE(x.X, at, depth+1, env))
 	case *ssa.ChangeType:
-		bound = min(bound, upperBound(x.X, at, depth+1))
+		bound = min(bound, upperBoundE(x.X, at, depth+1, env))
 	case *ssa.Phi:
 		m := uint64(0)
 		for i, e := range x.Edges {
 			pred := x.Block().Preds[i]
-			b := upperBound(e, pred, depth+1)
+			// the edge itself may be conditional on the incoming value: the back edge of `for i := range K`
+			// (rangeint) and of `for …; i < K; i++` is taken only when the incremented counter is below K
+			if eb, ok := edgeBound(e, pred, x.Block()); ok {
+				if eb > m {
+					m = eb
+				}
+				continue
+			}
+			b := upperBoundE(e, pred, depth+1, env)
 			if b > m {
 				m = b
 			}
 		}
 		bound = min(bound, m)
 	case *ssa.BinOp:
-		a, b := upperBound(x.X, at, depth+1), upperBound(x.Y, at, depth+1)
+		a, b := upperBoundE(x.X, at, depth+1, env), upperBoundE(x.Y, at, depth+1, env)
 		switch x.Op {
 		case token.ADD:
 			bound = min(top, a+b)
@@ -156,10 +177,96 @@ func upperBound(v ssa.Value, at *ssa.BasicBlock, depth int) uint64 {
 	return bound
 }
 
+// extractBound: the bound of one result of a call — strconv.ParseUint(s, base, bitSize) yields at most 2^bitSize-1
+// (and 0 on error); a module function with a static callee yields at most the largest of its returned values,
+// evaluated with the call's bounded arguments assumed for the parameters.
+func extractBound(x *ssa.Extract, depth int, env map[*ssa.Parameter]uint64) (uint64, bool) {
+	call, ok := x.Tuple.(*ssa.Call)
+	if !ok {
+		return 0, false
+	}
+	cal := call.Call.StaticCallee()
+	if cal == nil {
+		return 0, false
+	}
+	if cal.Pkg != nil && cal.Pkg.Pkg.Path() == "strconv" && cal.Name() == "ParseUint" && x.Index == 0 && len(call.Call.Args) == 3 {
+		bs := upperBoundE(call.Call.Args[2], call.Block(), depth+1, env)
+		if bs >= 1 && bs < 40 { // bitSize 0 means 64
+			if k, isK := call.Call.Args[2].(*ssa.Const); isK && k.Int64() == 0 {
+				return 0, false
+			}
+			if _, isK := call.Call.Args[2].(*ssa.Const); isK || bs >= 1 {
+				return uint64(1)<<bs - 1, true
+			}
+		}
+		return 0, false
+	}
+	if cal.Blocks == nil || depth > 4 || cal.Recover != nil || call.Call.IsInvoke() {
+		return 0, false
+	}
+	env2 := map[*ssa.Parameter]uint64{}
+	for i, p := range cal.Params {
+		if i < len(call.Call.Args) {
+			if _, isInt := uintMax(p.Type()); isInt || isIntType(p.Type()) {
+				env2[p] = upperBoundE(call.Call.Args[i], call.Block(), depth+1, env)
+			}
+		}
+	}
+	m, any := uint64(0), false
+	for _, b := range cal.Blocks {
+		ret, ok := b.Instrs[len(b.Instrs)-1].(*ssa.Return)
+		if !ok || x.Index >= len(ret.Results) {
+			continue
+		}
+		any = true
+		if rb := upperBoundE(ret.Results[x.Index], b, depth+2, env2); rb > m {
+			m = rb
+		}
+	}
+	return m, any
+}
+
+func isIntType(t types.Type) bool {
+	b, ok := t.Underlying().(*types.Basic)
+	return ok && b.Info()&types.IsInteger != 0
+}
+
+// edgeBound: pred ends in `if v < K` (or v <= K) and reaches succ only over the true edge: v is bounded on that edge.
+func edgeBound(v ssa.Value, pred, succ *ssa.BasicBlock) (uint64, bool) {
+	if len(pred.Instrs) == 0 || len(pred.Succs) != 2 || pred.Succs[0] != succ || pred.Succs[1] == succ {
+		return 0, false
+	}
+	iff, ok := pred.Instrs[len(pred.Instrs)-1].(*ssa.If)
+	if !ok {
+		return 0, false
+	}
+	bo, ok := iff.Cond.(*ssa.BinOp)
+	if !ok || bo.X != v {
+		return 0, false
+	}
+	k, ok := bo.Y.(*ssa.Const)
+	if !ok || k.Value == nil || k.Value.Kind() != constant.Int {
+		return 0, false
+	}
+	kv, ok := constant.Uint64Val(k.Value)
+	if !ok {
+		return 0, false
+	}
+	switch bo.Op {
+	case token.LSS:
+		if kv > 0 {
+			return kv - 1, true
+		}
+	case token.LEQ:
+		return kv, true
+	}
+	return 0, false
+}
+
 // ruleNarrowGuard: arithmetic in uint8/uint16 whose result is compared must be proven not to wrap.
 // narrowReviewed: narrow sums that cannot wrap for a reason the interval analysis does not see (one function each).
 var narrowReviewed = map[string]string{
-	"(*pkg/packet/bgp.CapSoftwareVersion).DecodeFromBytes":      "1+c.SoftwareVersionLen: the field was assigned two lines above from a local already tested to be at most 64",
+	"(*pkg/packet/bgp.CapSoftwareVersion).DecodeFromBytes":       "1+c.SoftwareVersionLen: the field was assigned two lines above from a local already tested to be at most 64",
 	"(*pkg/packet/bgp.PathAttributeTunnelEncap).DecodeFromBytes": "4+tlv.Length: TunnelEncapTLV.DecodeFromBytes has just refused a TLV longer than the remaining value, and an attribute value is at most 65535 octets, so Length <= 65531",
 }
 
